@@ -804,8 +804,8 @@ def check(ctx, lexicons, texts, hists, c2r_strings=()):
             ctx.corr_break("plex:lexicon", inp0, "built", mlex)
         else:
             if mlex.split()[3] != "1":
-                ctx.note("model NFA violates states_0 == states_n-1: %s" % name)
-                ctx.corr_break("plex:else_invariant", inp0, "?", mlex)
+                ctx.note("model NFA fails nfa_ok / nfa_bounded (hypotheses of the theorems): %s" % name)
+                ctx.corr_break("plex:nfa_ok", inp0, "?", mlex)
             if ent["nfa"] != mnfa:
                 ctx.corr_break("plex:build_machine(NFA)", inp0, ent["nfa"][:600], mnfa[:600])
             cm, nm = canon_model_dfa(mdfa)
